@@ -777,7 +777,7 @@ func c03fscSig(impl, model, asIs []byte) string {
 
 func runC03(c *ctx) {
 	res := c.res
-	res.Rule = "sessions: {1.0,1.1} x ForceSelfClosingTags x ExcludeHeader x 1..30 requests drawn from get/get-config/edit-config/copy-config/delete-config/lock/unlock/validate/commit(+confirmed/timeout/persist)/discard/raw rpc with generated XML (attributes, namespaces, prefixed names, empty / white-space-only / already self-closed elements, same-name nesting, multi-byte text, '##' and '#<n>' lines, 1..20000 bytes) plus malformed payloads; direct: ForceSelfClosingTags on generated XML and tag soup. non-trivial = a request that was sent (distinct by version/options/position/bytes) or a direct rewrite input containing '</'"
+	res.Rule = "sessions: {1.0,1.1} x ForceSelfClosingTags x ExcludeHeader x 1..30 requests drawn from get/get-config/edit-config/copy-config/delete-config/lock/unlock/validate/commit(+confirmed/timeout/persist)/discard/raw rpc with generated XML (attributes, namespaces, prefixed names, empty / white-space-only / already self-closed elements, same-name nesting, multi-byte text, '##' and '#<n>' lines, 1..20000 bytes) plus malformed payloads; direct: ForceSelfClosingTags on generated XML (with and without comments/CDATA/processing instructions), byte soup and token soup. non-trivial = a request that was sent (distinct by version/options/position/bytes) or a direct rewrite input containing '</'"
 	type sessParam struct {
 		v      string
 		sc, nh bool
@@ -930,7 +930,7 @@ func c03direct(c *ctx, inputs [][]byte, class []string) {
 			res.InDomain++
 		}
 		if i%499 == 0 {
-			res.Sample(map[string]any{"class": "direct-" + cl, "input": string(in), "impl": string(outs[i]), "model": string(model)})
+			res.Sample(map[string]any{"class": "direct-" + cl, "input": c03clip(string(in), 300), "impl": c03clip(string(outs[i]), 300), "model": c03clip(string(model), 300)})
 		}
 		// oracle: the output must be the input with some empty elements closed, nothing else
 		if !legal {
